@@ -15,18 +15,12 @@ Lemma lql_c_eq : lql_c = map (compile_with terms_table) lql_formats. Proof. vm_c
 
 Definition all_formats : list bytes := known_formats ++ lql_formats.
 
-(* the one format whose own regexp rejects some of its texts (the nine-letter weekday) *)
-Definition dddd_format : bytes := B "DDDD, YY-MMM-DD HH:mm:ss ZZZ".
-
-(* every other format of both lists passes format_ok *)
-Lemma tables_format_ok : forallb (fun f => bytes_eqb f dddd_format || format_ok terms_table f) all_formats = true.
+(* every format of both lists passes format_ok (decided on the generated tables) *)
+Lemma tables_format_ok : forallb (format_ok terms_table) all_formats = true.
 Proof. vm_cast_no_check (eq_refl true). Qed.
 
-Lemma format_ok_of_table f : In f all_formats -> f <> dddd_format -> format_ok terms_table f = true.
-Proof.
-  intros Hin Hne. pose proof tables_format_ok as H. rewrite forallb_forall in H. specialize (H f Hin).
-  apply orb_true_iff in H as [H|H]; [apply bytes_eqb_eq in H; contradiction|exact H].
-Qed.
+Lemma format_ok_of_table f : In f all_formats -> format_ok terms_table f = true.
+Proof. intros Hin. pose proof tables_format_ok as H. rewrite forallb_forall in H. exact (H f Hin). Qed.
 
 (* no format of the LQL list can parse digits with an optional leading sign *)
 Lemma lql_int_safe : forallb (fun o => match o with Some cf => int_safe (cf_elems cf) | None => false end) lql_c = true.
@@ -54,27 +48,22 @@ Proof.
   change (days_in_month 2019 5) with 31. repeat split; try lia; try (left; reflexivity); try (intros; reflexivity); try (intros; lia).
 Qed.
 
-(* the DDDD format does not parse its own text of a Wednesday *)
-Lemma dddd_wednesday :
-  match compile_with terms_table dddd_format with
-  | Some cf => parse_one w_now cf (render_toks (the_tokens dddd_format) w_wed) = None
-  | None => False
-  end.
-Proof. vm_compute. reflexivity. Qed.
-
-(* the collector list: the text of "YYYY/MM/DD HH:mm:ss" is claimed by the earlier "D/M/YY HH:mm" *)
+(* first match depends on the order of the list: with "D/M/YY HH:mm" in front, the text of "YYYY/MM/DD HH:mm:ss" is claimed
+   through its substring "19/05/25 15:07" (the order the collector's list had before it was repaired) *)
 Definition f_slash : bytes := B "YYYY/MM/DD HH:mm:ss".
+Definition f_dmyy : bytes := B "D/M/YY HH:mm".
+Definition bad_order : list bytes := [f_dmyy; f_slash].
 Lemma slash_claimed :
-  In f_slash known_formats /\
-  parse_all w_now known_c (render_toks (the_tokens f_slash) w_sat) = Some (19%nat, (1747667220, 0)) /\
+  In f_slash all_formats /\ In f_dmyy all_formats /\
+  parse_all w_now (map (compile_with terms_table) bad_order) (render_toks (the_tokens f_slash) w_sat) = Some (0%nat, (1747667220, 0)) /\
   denotes w_now (the_tokens f_slash) w_sat = (1558796829, 0).
-Proof. vm_compute. repeat split. tauto. Qed.
+Proof. vm_compute. repeat split; tauto. Qed.
 
-(* the LQL path: the literal is lower-cased before the formats see it, so the ISO "T" format reads midnight *)
+(* the LQL path before the fix: the literal was lower-cased before the formats saw it, so the ISO "T" format read midnight *)
 Definition f_iso : bytes := B "YYYY-MM-DDTHH:mm:ss".
 Lemma iso_lowercased :
   In f_iso lql_formats /\
-  lql_parse w_now lql_c (render_toks (the_tokens f_iso) w_sat) = LAbs 1558742400000000000 /\
+  lql_parse_v true w_now lql_c (render_toks (the_tokens f_iso) w_sat) = LAbs 1558742400000000000 /\
   denotes w_now (the_tokens f_iso) w_sat = (1558796829, 0).
 Proof. vm_compute. repeat split. tauto. Qed.
 
@@ -86,12 +75,12 @@ Definition lql_list : list (option cfmt) := map (compile_with terms_table) lql_f
 Lemma in_by_eqb f l : existsb (bytes_eqb f) l = true -> In f l.
 Proof. intros H. apply existsb_exists in H as (x & Hx & E). apply bytes_eqb_eq in E. subst. exact Hx. Qed.
 
-Lemma self_of_table f : In f all_formats -> f <> dddd_format ->
+Lemma self_of_table f : In f all_formats ->
   exists l cf, tokens terms_table f = Some l /\ compile_with terms_table f = Some cf /\
     forall now c rest, civil_ok l c -> sep_ok rest ->
       parse_one now cf (render_toks l c ++ rest) = Some (denotes now l c).
 Proof.
-  intros Hin Hne. pose proof (format_ok_of_table f Hin Hne) as Hok.
+  intros Hin. pose proof (format_ok_of_table f Hin) as Hok.
   destruct (format_ok_inv _ _ Hok) as (l & cf & Ht & Hc).
   exists l, cf. split; [exact Ht|]. split; [exact Hc|]. intros now c rest H1 H2. eapply format_ok_sound; eassumption.
 Qed.
@@ -102,13 +91,8 @@ Definition self_statement : Prop :=
     forall now c rest, civil_ok l c -> sep_ok rest ->
       parse_one now cf (render_toks l c ++ rest) = Some (denotes now l c).
 
-Lemma self_refuted : ~ self_statement.
-Proof.
-  intros H. destruct (H dddd_format) as (l & cf & Ht & Hc & Hp).
-  { apply in_by_eqb. vm_compute. reflexivity. }
-  pose proof dddd_wednesday as W. rewrite Hc in W. unfold the_tokens in W. rewrite Ht in W.
-  specialize (Hp w_now w_wed [] (civil_ok_wed l) (or_introl eq_refl)). rewrite app_nil_r in Hp. congruence.
-Qed.
+Lemma self_holds : self_statement.
+Proof. intros f Hin. exact (self_of_table f Hin). Qed.
 
 (* first match over a list *)
 Definition first_match_statement (formats : list bytes) : Prop :=
@@ -117,15 +101,15 @@ Definition first_match_statement (formats : list bytes) : Prop :=
   exists j, parse_all now (map (compile_with terms_table) formats) (render_toks (the_tokens f) c ++ rest)
             = Some (j, denotes now (the_tokens f) c).
 
-Lemma first_match_refuted : ~ first_match_statement known_formats.
+Lemma first_match_bad_order_refuted : ~ first_match_statement bad_order.
 Proof.
-  intros H. destruct slash_claimed as (_ & Hp & Hd).
-  destruct (H 28%nat f_slash eq_refl w_now w_sat [] (civil_ok_sat _) (or_introl eq_refl)) as [j Hj].
-  rewrite app_nil_r in Hj. rewrite known_c_eq in Hp. rewrite Hp in Hj. rewrite Hd in Hj. discriminate.
+  intros H. destruct slash_claimed as (_ & _ & Hp & Hd).
+  destruct (H 1%nat f_slash eq_refl w_now w_sat [] (civil_ok_sat _) (or_introl eq_refl)) as [j Hj].
+  rewrite app_nil_r in Hj. rewrite Hp in Hj. rewrite Hd in Hj. discriminate.
 Qed.
 
 Lemma first_match_partial formats : (forall f, In f formats -> In f all_formats) ->
-  forall k f, nth_error formats k = Some f -> f <> dddd_format ->
+  forall k f, nth_error formats k = Some f ->
   forall now c rest, civil_ok (the_tokens f) c -> sep_ok rest ->
   let text := render_toks (the_tokens f) c ++ rest in
   (* no earlier format parses the text *)
@@ -133,8 +117,8 @@ Lemma first_match_partial formats : (forall f, In f formats -> In f all_formats)
      exists cj, compile_with terms_table fj = Some cj /\ parse_one now cj text = None) ->
   parse_all now (map (compile_with terms_table) formats) text = Some (k, denotes now (the_tokens f) c).
 Proof.
-  intros Hsub k f Hk Hne now c rest Hc Hs text Hearlier.
-  destruct (self_of_table f (Hsub f (nth_error_In _ _ Hk)) Hne) as (l & cf & Ht & Hcf & Hp).
+  intros Hsub k f Hk now c rest Hc Hs text Hearlier.
+  destruct (self_of_table f (Hsub f (nth_error_In _ _ Hk))) as (l & cf & Ht & Hcf & Hp).
   assert (El : the_tokens f = l) by (unfold the_tokens; rewrite Ht; reflexivity).
   unfold parse_all. rewrite <- (Nat.add_0_l k).
   apply (parse_all_from_first now text _ 0%nat k cf).
@@ -147,30 +131,31 @@ Qed.
 (* the LQL literal path *)
 Definition nanos (i : Z * Z) : Z := wrap64 (fst i * 1000000000 + snd i).
 
-Definition lql_abs_statement : Prop :=
+Definition lql_abs_statement (lower : bool) : Prop :=
   forall k f, nth_error lql_formats k = Some f ->
   forall now c, civil_ok (the_tokens f) c ->
-  lql_parse now lql_list (render_toks (the_tokens f) c) = LAbs (nanos (denotes now (the_tokens f) c)).
+  lql_parse_v lower now lql_list (render_toks (the_tokens f) c) = LAbs (nanos (denotes now (the_tokens f) c)).
 
-Lemma lql_abs_refuted : ~ lql_abs_statement.
+(* the code before the fix: the literal is lower-cased before the formats see it *)
+Lemma lql_abs_lowercased_refuted : ~ lql_abs_statement true.
 Proof.
   intros H. destruct iso_lowercased as (_ & Hp & Hd).
   specialize (H 40%nat f_iso eq_refl w_now w_sat (civil_ok_sat _)).
   unfold lql_list in H. rewrite <- lql_c_eq in H. rewrite Hp, Hd in H. vm_compute in H. injection H as H2. lia.
 Qed.
 
-Lemma lql_abs_partial k f : nth_error lql_formats k = Some f -> f <> dddd_format ->
+Lemma lql_abs_partial k f : nth_error lql_formats k = Some f ->
   forall now c lit, civil_ok (the_tokens f) c ->
   let text := render_toks (the_tokens f) c in
-  to_lower (trim_sp lit) = text ->              (* the literal survives trimming and lower-casing *)
-  parse_relative text = None -> index_of text const_names 0 = None ->
+  trim_sp lit = text ->                                   (* the literal, blanks around it removed *)
+  parse_relative (to_lower text) = None -> index_of (to_lower text) const_names 0 = None ->
   (forall j fj, (j < k)%nat -> nth_error lql_formats j = Some fj ->
      exists cj, compile_with terms_table fj = Some cj /\ parse_one now cj text = None) ->
   lql_parse now lql_list lit = LAbs (nanos (denotes now (the_tokens f) c)).
 Proof.
-  intros Hk Hne now c lit Hc text Hl Hr Hi Hearlier.
-  unfold lql_parse. rewrite Hl, Hr, Hi.
-  pose proof (first_match_partial lql_formats (fun f H => in_or_app _ _ _ (or_intror H)) k f Hk Hne now c [] Hc (or_introl eq_refl)) as P.
+  intros Hk now c lit Hc text Hl Hr Hi Hearlier.
+  unfold lql_parse, lql_parse_v, code_lowers_absolute. cbv zeta. rewrite Hl, Hr, Hi.
+  pose proof (first_match_partial lql_formats (fun f H => in_or_app _ _ _ (or_intror H)) k f Hk now c [] Hc (or_introl eq_refl)) as P.
   cbv zeta in P. rewrite app_nil_r in P. fold text in P. unfold lql_list. rewrite (P Hearlier).
   destruct (denotes now (the_tokens f) c) as [s ns]. reflexivity.
 Qed.
